@@ -78,6 +78,20 @@ def build_network(desc, **kw) -> Network:
     return net
 
 
+def follow_up(rng, desc):
+    """the same network with one more reaction among the species it already has: same species set, usually another
+    species order (the order follows the number of reaction partners) - to be generated right after `desc` in the same process"""
+    sp = sorted({x for r, p in desc["reactions"] for x in list(r) + list(p) if x not in ("CR", "CRP", "PHOTON", "CRPHOT")})
+    if len(sp) < 2:
+        return None
+    d2 = dict(desc)
+    d2["reactions"] = list(desc["reactions"]) + [([rng.choice(sp), rng.choice(sp)], [rng.choice(sp)])]
+    for key in ("tmin", "tmax", "idx"):
+        if key in d2:
+            d2[key] = dict(d2[key])
+    return d2
+
+
 def final_indices(desc):
     """the file indices of the reactions a description ends up with (after its edits)"""
     idx = [desc.get("idx", {}).get(i, i) for i in range(len(desc["reactions"]))]
@@ -93,9 +107,24 @@ class FakeThermal(ThermalProcess):
     pass
 
 
+_LOADERS, _LOADER_CALLS = {}, [0]
+
+
+def loader(solver, method, device):
+    """a TemplateLoader: two calls out of three return ONE object per back-end that is reused for every network of the run
+    (the API allows it; anything a loader or its class remembers from an earlier network then shows), every third a fresh one"""
+    _LOADER_CALLS[0] += 1
+    if _LOADER_CALLS[0] % 3 == 0:
+        return TemplateLoader(solver, method, device)
+    key = (solver, method, device)
+    if key not in _LOADERS:
+        _LOADERS[key] = TemplateLoader(solver, method, device)
+    return _LOADERS[key]
+
+
 def impl_ode(net: Network, heating=None, cooling=None, method="dense"):
     """channel A: the ODEContent the generator hands to the templates"""
-    tl = TemplateLoader("cvode", method, "cpu")
+    tl = loader("cvode", method, "cpu")
     species = net.species
     info = NetworkInfo(net.elements, species,
                        net.reactions, heating if heating is not None else net.heating,
@@ -252,7 +281,7 @@ def cleanup_scratch():
 
 def render(net: Network, solver="cvode", method="dense", device="cpu", jac_pattern=False, templates=None) -> Path:
     d = scratch_dir()
-    tl = TemplateLoader(solver, method, device)
+    tl = loader(solver, method, device)
     with quiet():
         tl.render("naunet", net, templates=templates, path=d, save=True, jac_pattern=jac_pattern)
     return d
